@@ -213,10 +213,11 @@ func (m *Machine) sprintf(fr *frame, format Str, args []value, lenient bool) (St
 			if piece.Len() == 0 {
 				if s.Concrete() {
 					piece = conc(strconv.Quote(s.s))
-				} else if lenient {
-					piece = m.strConcat(m.strConcat(conc(`"`), s), conc(`"`))
 				} else {
-					panic(unsupported("fmt model: %q of a symbolic string"))
+					// approximation (the exact quoting depends on every byte): the raw bytes
+					// between quotes; only reached for diagnostic messages, counted in evidence
+					m.IntrHits["fmt:%q-of-symbolic-string-approximated"]++
+					piece = m.strConcat(m.strConcat(conc(`"`), s), conc(`"`))
 				}
 			}
 		case 'd', 'x', 'X', 'c', 'U', 'o', 'b':
